@@ -43,12 +43,101 @@ def line_impl(kind: str, line: str) -> str:
     return f"ev{KIND_ID[kind]} {d.tick} {impl.cps(d.value)}"
 
 
+# ------------------------------------------------------------------------------------------------------------------
+# Independent reading of the documented line formats (README / Moonscraper), written without the shipped patterns:
+# blanks = str.isspace, digits = str.isdecimal (the interpreter's own notions of \s and \d), values by position.
+# `spec(kind, line)` is the promise for EVERY string: the decoded datum, or "none".
+
+
+def _lead(line):
+    i = 0
+    while i < len(line) and line[i].isspace():
+        i += 1
+    return line[i:]
+
+
+def _digits(s):
+    i = 0
+    while i < len(s) and s[i].isdecimal():
+        i += 1
+    return (s[:i], s[i:]) if i else (None, s)
+
+
+def _blank(s):
+    return all(c.isspace() for c in s)
+
+
+def spec(kind: str, line: str) -> str:
+    if "\n" in line:
+        return None  # not a chart line (lines come from splitlines); nothing promised
+    tick, r = _digits(_lead(line))
+    if tick is None or not r.startswith(" = "):
+        return "none"
+    r = r[3:]
+    t = int(tick)
+    if kind == "note":
+        if not r.startswith("N ") or len(r) < 4 or r[2] not in "01234567" or r[3] != " ":
+            return "none"
+        ln, rest = _digits(r[4:])
+        return f"note {t} {r[2]} {int(ln)}" if ln is not None and _blank(rest) else "none"
+    if kind in ("sp", "bpm"):
+        lit = "S 2 " if kind == "sp" else "B "
+        if not r.startswith(lit):
+            return "none"
+        v, rest = _digits(r[len(lit):])
+        if v is None or not _blank(rest):
+            return "none"
+        return f"sp {t} {int(v)}" if kind == "sp" else f"bpm {t} {impl.cps(v)}"
+    if kind == "anchor":
+        if not r.startswith("A "):
+            return "none"
+        v, rest = _digits(r[2:])
+        return f"anchor {t} {int(v)}" if v is not None and rest == "" else "none"
+    if kind == "ts":
+        if not r.startswith("TS "):
+            return "none"
+        u, rest = _digits(r[3:])
+        if u is None:
+            return "none"
+        if rest.startswith(" "):
+            l, rest2 = _digits(rest[1:])
+            if l is not None and _blank(rest2):
+                return f"ts {t} {int(u)} {int(l)}"
+        return f"ts {t} {int(u)} ~" if _blank(rest) else "none"
+    if kind == "te":
+        if not r.startswith("E "):
+            return "none"
+        v = r[2:]
+        while v and v[-1].isspace():
+            v = v[:-1]
+        return f"te {t} {impl.cps(v)}" if " " not in v else "none"
+    if kind in ("lyric", "section", "text"):
+        lit = {"lyric": 'E "lyric ', "section": 'E "section ', "text": 'E "'}[kind]
+        if not r.startswith(lit):
+            return "none"
+        v = r[len(lit):]
+        while v and v[-1].isspace():
+            v = v[:-1]
+        if not v.endswith('"'):
+            return "none"
+        v = v[:-1]
+        if kind == "text" and '"' in v:
+            return "none"
+        return f"ev{KIND_ID[kind]} {t} {impl.cps(v)}"
+    return None
+
+
 def run(ctx, out, cases, label="recogniser"):
     """cases: (kind, line, truth|None, nontrivial, tag). truth None = nothing promised (near-miss / random: only correspondence,
     unless truth == 'none' which promises rejection)."""
     mod = driver.run_parallel([f"line {KIND_ID[k]} {driver.cps(l)}" for k, l, *_ in cases])
     for (k, l, truth, nontriv, tag), m in zip(cases, mod):
         i = line_impl(k, l)
+        sp_ = spec(k, l)
+        if truth is None:
+            truth = sp_  # the independent reading of the format decides every string, mutations and random ones included
+        elif sp_ is not None and sp_ != truth:
+            out.model_bug(f"oracle disagreement on {k} line {l!r}", {"op": "line", "kind": k, "line": l}, model=sp_, promised=truth)
         out.case("L" + fw.h([k, l]), nontriv, {"kind": k, "line": l, "decoded": i} if nontriv else None,
                  tags=[tag, k + ("+" if i != "none" else "-")])
         out.traces += 1
